@@ -23,7 +23,7 @@ omitted; <slot> a decimal slot number):
   nx:<scanner slot>:<k|*>                  up to k (or all) further hits from the scanner
   cr:<dst>:<sequences v>:<protein v|->:<name v|->   create(sequences, protein=, name=)
   gm:<dst>:<motif slot>:<c|w|s>            motif.counts / .pwm / .pssm
-  ld:<dst>:<mode>:<data hex>:<format v|->:<protein v|->   list(load(file, format, protein=)); mode: p path,
+  ld:<dst>:<mode>:<data hex>:<format v|->:<protein v|->   list(load(file, format, protein=)); mode: p path (pb as bytes, pP as pathlib.Path),
         q missing path, b BytesIO, r<k> read() returns at most k bytes, o read() returns one byte too many,
         t read() returns str, e read() raises OSError, x object without read()
   lc:...                                   same as ld through the class: list(Loader(file, format, protein=...))
@@ -38,9 +38,12 @@ omitted; <slot> a decimal slot number):
   fo:<dst>:<data hex>                      io.BytesIO(data): one file object that several loaders may share
   ll:<dst>:<file slot>:<format v|->:<protein v|->   Loader(file, format, protein=...) - lazy, nothing is iterated
   ln:<loader slot>:<k>                     up to k next() calls (stops at StopIteration or at an exception)
-  mt:<sm slot>:<n>                         n threads, each with its own sequence, share the scoring matrix read-only
-                                           (calculate, max, argmax, pvalue); outcome `mt:ok` when every thread got
-                                           what the same calls give sequentially
+  mt:<sm slot>:<n>:<r|s|f>                 r: n threads, each with its own sequence, share the scoring matrix read-only
+                                           (calculate, max, argmax, threshold, pvalue); outcome `mt:ok` when every thread
+                                           got what the same calls give sequentially.  s: n threads calculate on ONE shared
+                                           sequence: sequential result or the documented RuntimeError (already borrowed).
+                                           f: the first p-value of the matrix is asked while another thread is inside
+                                           calculate() on it (GIL released there): no exception
   dl:<slot>                                the history drops its (last) reference to the object: del, gc.collect(), then
                                            allocation churn (new matrices / sequences of the same size, kept alive) so
                                            that freed memory is reused while scanners / scores derived from it live on
@@ -61,6 +64,7 @@ import gc
 import gzip
 import io
 import os
+import pathlib
 import sys
 import tempfile
 
@@ -188,8 +192,8 @@ def dict_array(v, protein):
     return arr
 
 
-def items_of(v):
-    if v[0] in "LU":
+def items_of(v, need_len=False):
+    if v[0] in "LU" or (v[0] == "G" and not need_len):
         return list(v[1])
     if v[0] == "s":
         return [("s", c) for c in v[1]]
@@ -220,7 +224,7 @@ def columns_matrix(v, protein, conv):
     rows = None
     for j, c in enumerate(syms):
         if c in d:
-            items = items_of(d[c])
+            items = items_of(d[c], need_len=True)     # a column must have len(): no generators
             if items is None:
                 return None
             if rows is None:
@@ -250,6 +254,7 @@ class Case:
         self.oracle = {}    # call -> result (insertion ordered)
         self.results = {}   # op index -> f64 bits of a float result
         self.churn = []     # objects allocated after deletions, kept alive to occupy freed memory
+        self.live = {}      # id(StripedSequence object) -> its shadow as reconfigured so far (what a scanner on it sees)
 
     # -- oracle ----------------------------------------------------------------
     def core(self, call, fn, ren):
@@ -286,7 +291,7 @@ class Case:
             if v[1] not in self.results:
                 raise Unbound()
             return ("f", self.results[v[1]])
-        if t in "LU":
+        if t in "LUG":
             return (t, [self.resolve(x) for x in v[1]])
         if t == "D":
             return ("D", [(self.resolve(k), self.resolve(x)) for k, x in v[1]])
@@ -485,6 +490,7 @@ def run_op(cs, op):
                 q2, sc = cs.sh_configure_score(sm, q)
                 if q2 is not None:
                     cs.shadow[seq[1]] = q2
+                    cs.live[id(cs.slots[seq[1]])] = q2
                 if sc is not None:
                     cs.shadow[dst] = sc
                 qf = cs.sh_fresh(q)
@@ -570,10 +576,14 @@ def run_op(cs, op):
                 q2 = cs.cv("configure~%s~%s" % (c(q), c(sm)), lambda: lmcore.configure(q, sm))
                 if q2 is not None:
                     cs.shadow[seq[1]] = q2
+                    pyseq = cs.slots[seq[1]]
+                    cs.live[id(pyseq)] = q2
                     ren = lambda r: "h:" + ("/".join("%d,%d" % h for h in r) or "-")
                     hits = cs.core("scan_all~%s~%s~%d~%d" % (c(sm), c(q2), tb, b), lambda: lmcore.scan_all(sm, q2, tb, b), ren)
                     if hits is not None:
-                        cs.shadow[dst] = {"hits": list(hits)}
+                        # the scanner refers to the sequence *object*: whatever reconfigures that object later
+                        # (under any name) is seen by the scanner (lazy reading of the model, run_call_lazy)
+                        cs.shadow[dst] = {"hits": list(hits), "live": (pyseq, sm, tb, b)}
                     qf = cs.sh_fresh(q)
                     if qf is not None:
                         qf2 = cs.cv("configure~%s~%s" % (c(qf), c(sm)), lambda: lmcore.configure(qf, sm))
@@ -594,6 +604,16 @@ def run_op(cs, op):
         if not isinstance(me, lightmotif.Scanner):
             raise Unbound()
         k = None if f[2] == "*" else int(f[2])
+        sh = cs.shadow.get(src)
+        if isinstance(sh, dict) and "live" in sh:
+            # the core scan over the sequence object as it is now
+            pyseq, sm, tb, b = sh["live"]
+            q = cs.live.get(id(pyseq))
+            if q is not None:
+                key = "scan_all~%s~%s~%d~%d" % (c(sm), c(q), tb, b)
+                if key not in cs.oracle:
+                    cs.core(key, lambda: lmcore.scan_all(sm, q, tb, b),
+                            lambda r: "h:" + ("/".join("%d,%d" % h for h in r) or "-"))
         hits = []
         end = 0
         while k is None or len(hits) < k:
@@ -679,7 +699,7 @@ def run_op(cs, op):
             core_fault = (faulty[2], faulty[1] - 1, {"p": "perm", "m": "invalid"}.get(faulty[0], "other"), faulty[0] == "c")
         elif mode == "o":
             core_fault = (8192, 1, "invalid", True)     # every read() after the read(0) probe returns too much
-        good = mode in ("p", "b") or mode[0] == "r" or (mode[0] == "f" and mode != "fx") or core_fault is not None
+        good = mode in ("p", "b", "pb", "pP") or mode[0] == "r" or (mode[0] == "f" and mode != "fx") or core_fault is not None
         full = data
         if mode == "r0" or mode == "fe":
             data = b""
@@ -742,11 +762,11 @@ def run_op(cs, op):
         tmp = None
         opened = None
         try:
-            if mode == "p":
+            if mode in ("p", "pb", "pP"):
                 fd, tmp = tempfile.mkstemp(prefix="c17-", suffix=".txt")
                 os.write(fd, data)
                 os.close(fd)
-                fobj = tmp
+                fobj = tmp if mode == "p" else (os.fsencode(tmp) if mode == "pb" else pathlib.Path(tmp))
             elif mode == "q":
                 fobj = "/nonexistent/c17/%d.txt" % os.getpid()
             elif mode == "b":
@@ -1028,6 +1048,41 @@ def run_op(cs, op):
             if "P" in seen:
                 return "P"
             return "V:mt:ok" if not [x for x in seen if x != "E:ValueError"] else "V:mt:" + seen[0]
+        if variant == "s":
+            # n threads call calculate on ONE shared sequence (plus p-values of the shared matrix): a call either
+            # gives what it gives sequentially or raises the documented RuntimeError ("Already borrowed": the
+            # sequence is mutably borrowed for the whole call, also while the GIL is released)
+            q = lightmotif.stripe(("ACGTTGCAAC" * 30000)[: 200003])
+            try:
+                sc = me.calculate(q)
+                want = (len(sc), lmcore.f32bits(sc.max()) if len(sc) else None, sc.argmax(), lmcore.f64bits(me.pvalue(1.0)))
+            except BaseException as e:
+                return exc_outcome(e)
+            bad = []
+            busy = [0]
+
+            def work_shared():
+                for _ in range(12):
+                    try:
+                        sc = me.calculate(q)
+                        got = (len(sc), lmcore.f32bits(sc.max()) if len(sc) else None, sc.argmax(), lmcore.f64bits(me.pvalue(1.0)))
+                        if got != want:
+                            bad.append("mismatch")
+                    except RuntimeError as e:
+                        if "borrow" in str(e).lower():
+                            busy[0] += 1
+                        else:
+                            bad.append("E:RuntimeError:" + str(e).replace(" ", "_")[:40])
+                    except BaseException as e:
+                        bad.append(exc_outcome(e))
+            threads = [threading.Thread(target=work_shared) for _ in range(max(n, 2))]
+            for t in threads:
+                t.start()
+            for t in threads:
+                t.join()
+            if "P" in bad:
+                return "P"
+            return "V:mt:ok" if not bad else "V:mt:" + bad[0]
         texts = [("ACGTTGCA" * (5 + 3 * i) + "TTGACA" * i)[: 40 + 37 * i] for i in range(n)]
 
         def work(text, out):
